@@ -91,7 +91,7 @@ def enumerate_scripts(run, prefix=(), max_exec=None, budget_kinds=None, k=None, 
 
     script = list(prefix)
     expect = None
-    changed = 0
+    changed = -1  # first execution: everything is new, judge from the very beginning
     n_exec = 0
     lp = len(prefix)
 
